@@ -21,7 +21,7 @@ func StartRedis() (*miniredis.Server, func(), error) {
 func WithRedis(cfg config.Config, addr string) config.Config {
 	idle, active := uint(8), uint(0)
 	cfg.Persistence = config.Persistence{
-		Type: config.PersistenceTypeRedis,
+		Type:  config.PersistenceTypeRedis,
 		Redis: config.RedisPersistence{Addr: addr, Database: 0, MaxIdle: &idle, MaxActive: &active, IdleTimeout: 4 * time.Minute},
 	}
 	return cfg
